@@ -2,7 +2,7 @@
    Theorems only; proofs are [exact] of lemmas proved elsewhere, or vm_compute witnesses. *)
 From Coq Require Import List ZArith Bool.
 From Verif Require Import Base.Sx Base.GoVal Base.F64 Schema.Ast Schema.Build Schema.Pipeline Schema.Draft4
-  Schema.Classes Schema.PipelineFacts.
+  Schema.Classes Schema.PipelineFacts Schema.PipelineTerm Schema.Agreement.
 Import ListNotations.
 Open Scope Z_scope.
 
@@ -86,3 +86,65 @@ Example C01_example_tuple_additional :
   (match sv_validate no_oracles flocq_ops opt0 [] 8 s [SRoot 0] [SRoot 0] d with Ok r => Some (r_valid r) | _ => None end,
    d4 no_oracles flocq_ops [] 8 s d) = (Some false, Some false).
 Proof. vm_compute. reflexivity. Qed.
+
+(* ---- and it holds on a fragment ---- *)
+
+(* On schemas of the class [clean] - no references, formats, nullable, patternProperties, dependencies, oneOf,
+   uniqueItems, defaults under properties, empty tuples, nor a schema next to additional*: false; type, enum, numeric
+   and string keywords, items (one or positional) with additionalItems, properties / required / additionalProperties /
+   min- and maxProperties, allOf, anyOf, not, at every depth - and JSON data of the class [jd] - no null, objects with
+   distinct members none of which is called "$schema", "id" or "headers" - the verdict of the pipeline is the draft-4
+   verdict: for every oracle, every option set with the two Swagger pre-checks off, every environment, and every
+   numeric implementation whose order is total on the numbers involved.  The excluded shapes are where the recorded
+   finding classes live, plus the keywords whose agreement is not proved yet (checked by the tie on every run). *)
+Theorem C01_agreement_on_the_clean_fragment_partial :
+  forall (fin : f64 -> Prop) OR N opt defs,
+  opt_array_must_have_items opt = false -> opt_obj_array_type_check opt = false ->
+  (forall a b, fin a -> fin b -> n_lt N a b = negb (n_le N b a)) ->
+  forall n fuel s, clean fin OR n s -> (n < fuel)%nat -> forall p q d, jd fin d ->
+  exists r, sv_validate OR N opt defs fuel s p q d = Ok r /\ d4 OR N defs fuel s d = Some (r_valid r).
+Proof. exact clean_fragment_agrees. Qed.
+Print Assumptions C01_agreement_on_the_clean_fragment_partial.
+
+(* non-vacuity: numbers read as integers, {"type":"object","required":[50],"properties":{50:{"type":"number","maximum":7}},
+   "additionalProperties":{"anyOf":[{"type":"string"},{"items":{"type":"boolean"}}]}} and a matching instance *)
+Definition z_ops : numops :=
+  {| n_le := Z.leb; n_lt := Z.ltb; n_eq := Z.eqb; n_is_int := fun _ => true;
+     n_mult_of := fun a f => if f <=? 0 then MNotPositive else if Z.eqb (a mod f) 0 then MOk else MNotMultiple;
+     n_of_int := fun z => z; n_to_int64 := fun z => z; n_to_uint64 := fun z => z; n_exact_int := fun z => Some z; n_fits_f32 := fun _ => true |}.
+Definition c01_schema : schema :=
+  set_types [k_object] (set_required [50] (set_props [(50, set_types [k_number] (set_maximum (Some 7) empty_schema))]
+    (set_add_props (Some (true, Some (set_any_of [set_types [k_string] empty_schema;
+                                                 set_items_one (Some (set_types [k_boolean] empty_schema)) empty_schema] empty_schema))) empty_schema))).
+Definition c01_data : goval := VObj 1 [(50, VFlt false 5); (51, VArr 2 [VBool true])].
+
+Ltac clean_solve :=
+  repeat (unfold local_clean, array_clean, object_clean, comp_clean, bounds_fin, kids, c01_schema, plain_key in *; cbn in *;
+          match goal with
+          | |- _ /\ _ => split
+          | |- forall _, _ => intro
+          | |- _ <> _ => discriminate
+          | |- True => exact I
+          | H : None = Some _ |- _ => discriminate H
+          | H : Some _ = Some _ |- _ => inversion H; subst; clear H
+          | H : _ \/ _ |- _ => destruct H
+          | H : False |- _ => destruct H
+          | H : ?a = ?b |- False => discriminate H
+          | H : (_, _) = (_, _) |- _ => inversion H; subst; clear H
+          | |- Forall _ [] => constructor
+          | |- Forall _ (_ :: _) => constructor
+          | |- NoDup [] => constructor
+          | |- NoDup (_ :: _) => constructor
+          | |- ~ _ => intro
+          | |- _ = _ => reflexivity
+          | |- _ \/ _ => first [left; reflexivity | right; reflexivity]
+          end).
+
+Example C01_fragment_is_inhabited :
+  clean (fun _ => True) no_oracles 4 c01_schema /\ jd (fun _ => True) c01_data /\
+  (forall a b, True -> True -> n_lt z_ops a b = negb (n_le z_ops b a)) /\
+  exists r, sv_validate no_oracles z_ops opt0 [] 5 c01_schema [SRoot 0] [SRoot 0] c01_data = Ok r /\ r_valid r = true.
+Proof.
+  split; [clean_solve|]. split; [clean_solve|]. split; [intros a b _ _; cbn; apply Z.ltb_antisym|].
+  eexists. split; [vm_compute; reflexivity | reflexivity].
+Qed.
